@@ -61,7 +61,7 @@ Feed(e) ==
 (* Gecko codes: n splitter blocks, all but the last carrying 512 bytes *)
 RecGecko ==
     /\ phase = "gecko" /\ V30 /\ MaxGecko > 0
-    /\ \E n \in 1..MaxGecko, lastActual \in {512, 100} :
+    /\ \E n \in 1..MaxGecko, lastActual \in {512, 100, 1} :
          /\ plan' = [j \in 1..n |-> E("split", 0, WrappedGecko, IF j = n THEN 1 ELSE 0,
                                       IF j = n THEN lastActual ELSE 512)]
          /\ phase' = "geckoblocks"
